@@ -314,7 +314,7 @@ func (m *Monitors) checkCompletion(p *vh.PRow, t int64, bi *BatchInfo, cmds []cm
 			m.violate("C04,C03", "row:timeout-with-value", fmt.Sprintf("promise %s timed out with a value or key: %s", p.Id, p))
 		}
 	default:
-		m.violate("C04", "row:completed-after-deadline", fmt.Sprintf("promise %s stored with completedOn %d > timeout %d: %s", p.Id, co, p.Timeout, p))
+		m.violate("C04,C02", "row:completed-after-deadline", fmt.Sprintf("promise %s stored with completedOn %d > timeout %d: %s", p.Id, co, p.Timeout, p))
 	}
 	// the stored completion must be the one of the command that won
 	var win *t_aio.UpdatePromiseCommand
@@ -518,6 +518,10 @@ func (m *Monitors) checkTasks(prev *vh.Snapshot, bi *BatchInfo, next *vh.Snapsho
 			m.violate("C07,C02", "row:finished-task-changed", fmt.Sprintf("finished task changed: %s -> %s", t0, t1))
 		case t0.State == 1 && t1.State == 1:
 			m.attemptTick[id] = m.s.tickNo
+			if typ == "notify" {
+				// "a notification is finished after its first recorded hand-off attempt", whatever the attempt's outcome
+				m.violate("C08", "row:notify-retried", fmt.Sprintf("notification task %s stays init and counts another attempt (%d) instead of being finished after its hand-off attempt", t1.Id, t1.Attempt))
+			}
 			// failed hand-off: attempt+1, expiresAt moved
 			if t1.Counter != t0.Counter || t1.Attempt != t0.Attempt+1 || t1.ProcessId != nil {
 				m.violate("C08", "row:init-rewrite", fmt.Sprintf("init task rewritten illegally: %s -> %s", t0, t1))
@@ -983,7 +987,7 @@ func (m *Monitors) checkSchedules(prev *vh.Snapshot, bi *BatchInfo, next *vh.Sna
 			m.passedOver[id]++
 			m.hit("schedule.passed-over-by-newer-occurrences")
 			if m.passedOver[id] > 2*len(prev.S)+2 {
-				m.violate("C10", "row:due-schedule-starved", fmt.Sprintf("schedule %s has been due since %d and was passed over by %d consecutive full firing reads (limit %d) that only returned later occurrences (earliest %d)", id, q.Next, m.passedOver[id], c.cmd.ReadSchedules.Limit, minNext))
+				m.violate("C10,C11", "row:due-schedule-starved", fmt.Sprintf("schedule %s has been due since %d and was passed over by %d consecutive full firing reads (limit %d) that only returned later occurrences (earliest %d)", id, q.Next, m.passedOver[id], c.cmd.ReadSchedules.Limit, minNext))
 				delete(m.passedOver, id)
 			}
 		}
@@ -1394,6 +1398,11 @@ func (m *Monitors) OnReturn(o *OpRec) {
 	}
 	kind := o.Req.Kind
 	st := o.Status()
+	if st == 40000 {
+		// the kernel never judges the form of a request (the front ends do, before the kernel sees it), and every
+		// request made here is well-formed: a retry of a create after its deadline is answered by what is stored
+		m.violate("C03,C02,C04", "ack:well-formed-request-refused-as-invalid", fmt.Sprintf("op%d %s (made at tick %d) was answered 40000 'invalid request'", o.Idx, o.Req, o.CallTick))
+	}
 	if m.s.spec {
 		m.specReturn(o)
 	}
